@@ -94,12 +94,13 @@ static int zv_broadcast(pthread_cond_t* c) { char a[16]; sprintf(a, "bcast%s", c
 
 typedef struct { void* (*fn)(void*); void* arg; int idx; } wstart_t;
 static int g_workers = 0;
-static void* wstart(void* o) { wstart_t w = *(wstart_t*)o; free(o); sprintf(t_name, "W%d", w.idx); t_rng = g_seed * 7919u + (unsigned)w.idx * 104729u + 17; return w.fn(w.arg); }
+static int g_created = 0, g_joined = 0, g_joinErrors = 0, g_exitedWorkers = 0;       /* thread accounting: POOL_free must join every worker it created */
+static void* wstart(void* o) { wstart_t w = *(wstart_t*)o; void* r; free(o); sprintf(t_name, "W%d", w.idx); t_rng = g_seed * 7919u + (unsigned)w.idx * 104729u + 17; r = w.fn(w.arg); __atomic_add_fetch(&g_exitedWorkers, 1, __ATOMIC_SEQ_CST); return r; }
 static int zv_create(pthread_t* t, const void* attr, void* (*fn)(void*), void* arg) {
     wstart_t* w = (wstart_t*)malloc(sizeof *w); (void)attr; w->fn = fn; w->arg = arg; w->idx = g_workers++;
-    return pthread_create(t, NULL, wstart, w);
+    { int const r = pthread_create(t, NULL, wstart, w); if (r == 0) __atomic_add_fetch(&g_created, 1, __ATOMIC_SEQ_CST); return r; }
 }
-static int zv_join(pthread_t t) { return pthread_join(t, NULL); }
+static int zv_join(pthread_t t) { int const r = t ? pthread_join(t, NULL) : 3 /* ESRCH: a zeroed handle */; if (r == 0) g_joined++; else g_joinErrors++; return r; }
 
 /* ---- programs ---- */
 #define MAXJ 256
@@ -205,6 +206,8 @@ int main(void) {
         if (!g_pool && g_execCount[j] != g_acceptedCount[j]) fail("job %d accepted %d times, executed %d times by the time the pool was freed", j, g_acceptedCount[j], g_execCount[j]);
         if (g_doneCount[j] != g_execCount[j]) fail("job %d started %d times, finished %d", j, g_execCount[j], g_doneCount[j]);
     }
+    if (!g_pool && (g_joined != g_created || g_joinErrors || g_exitedWorkers != g_created))
+        fail("POOL_free returned with %d worker threads created, %d joined (%d join errors), %d exited", g_created, g_joined, g_joinErrors, g_exitedWorkers);
     fwrite(g_buf, 1, g_len, stdout);
     if (g_fail[0]) printf("monitor FAIL %s\n", g_fail); else printf("monitor ok\n");
     return 0;
